@@ -199,6 +199,8 @@ FirstSynackFor(q, mine) ==   \* nonce of the first SYN-ACK in the inbox that ech
     LET I == {i \in 1..Len(q) : q[i].type = "SYNACK" /\ Nonce(q[i], "nonce_ack", "nonce_ack_lsb") = mine} IN
     IF I = {} THEN NoNonce ELSE LET i == CHOOSE x \in I : \A y \in I : x <= y IN Nonce(q[i], "nonce", "nonce_lsb")
 
+HeardFrom(q) == \E i \in 1..Len(q) : q[i].type \in {"DATA", "SYNC", "ACKF"}
+
 Agree(sa, ca) == sa = NoNonce \/ ca = NoNonce \/ sa = ca
 
 Event ==
@@ -272,6 +274,10 @@ Event ==
                    \* established, not closing: only after the configured silence
                    \cup (IF established /\ isTimeout /\ closing[k] = "" /\ discAt[k] < 0 /\ t < lastHeard[k] + T[k]
                          THEN Flag("C10", "timeout-before-the-configured-silence") ELSE {})
+                   \* ... nor while a data / sync / ack frame from the peer, handed to the socket before this step, is
+                   \* waiting to be read (a step reads what has arrived before it looks at the clock)
+                   \cup (IF established /\ isTimeout /\ closing[k] = "" /\ discAt[k] < 0 /\ HeardFrom(inbox[k])
+                         THEN Flag("C10", "timeout-although-a-frame-from-the-peer-had-arrived") ELSE {})
                    \cup (IF established /\ isTimeout /\ closing[k] = "" /\ discAt[k] < 0 /\ cfg.lossfree /\ cfg.steady
                             /\ ka[k] >= 0 /\ ka[o] >= 0 /\ st[o] = "conn" /\ closing[o] = ""
                             /\ ~sentOn[k] /\ ~sentOn[o]      \* "however long it stays idle": nothing was ever submitted
@@ -291,7 +297,6 @@ Event ==
     /\ UNCHANGED <<T, ka, inbox, lastStep, maxGap, connectT, cNonce, synSeen, synCount, curSynack, ackFwd, srvIssued, cliAcked, errFwd, bytesIn, bytesOut, trackedPrev, trackedBefore, synThisStep, synLastStep, cfg>>
 
 \* --------------------------------------------------------------------------------------- end of step
-HeardFrom(q) == \E i \in 1..Len(q) : q[i].type \in {"DATA", "SYNC", "ACKF"}
 
 StepEnd ==
     /\ IsEvent("StepEnd")
